@@ -15,7 +15,8 @@ def jobs(tier):
     for f, kind, bound in (('setup_global', 'proof', None), ('add_item', 'proof', None),
                            ('link_import', 'bounded', 'one module with one import item in modules_to_link'),
                            ('load_export', 'bounded', 'one module with one function item')):
-        j = Job(f, H, 'h_' + f, defines={'NDEBUG': None}, ops=OPS, unwind=4, no_standard_checks=True, object_bits=10, timeout=600, solver='cadical',
+        ops = OPS + [('deunion', ('proto', 'data', 'ref_data', 'lref_data', 'expr_data', 'bss'))] if f == 'add_item' else OPS
+        j = Job(f, H, 'h_' + f, defines={'NDEBUG': None}, ops=ops, unwind=4, no_standard_checks=True, object_bits=10, timeout=600, solver='cadical',
                 scope=['vp_on_error', 'vp_ctx_setup', 'vp_env_state', 'item_tab_find', 'HTAB_MIR_item_t_do', 'vp_resolver', 'is_def', 'set_name'],
                 kind=kind, bound=bound)
         j.count_funcs = {'add_item', 'setup_global', 'MIR_link', 'MIR_load_module', 'MIR_load_external', 'new_export_import_forward', 'create_item'}
@@ -25,4 +26,4 @@ def jobs(tier):
 
 
 META = {'functions': ['setup_global', 'add_item', 'MIR_link (import binding)', 'MIR_load_module (export publication)', 'MIR_load_external'], 'undecided_part': '',
-        'trusted_base': ['ghost one-key map standing for module_item_tab (models in harness/c13_link.c)', 'models/error.h', 'models/alloc_concrete.h']}
+        'trusted_base': ['ghost one-key map standing for module_item_tab (models in harness/c13_link.c)', 'models/error.h', 'models/alloc_concrete.h', 'stager op deunion on the add_item job (work-around for a CBMC union dereference defect)']}
